@@ -143,6 +143,43 @@ fn poly64(p: &Polygon) -> Vec<[f64; 2]> {
 }
 
 /// the four reveal quads of a set-back window, from the statement (gap between wall plane and window plane)
+/// Wall-local coordinates of a point given in the frame windows are placed in: origin at the first vertex of the wall
+/// outline, x along its first edge (the documented convention of `WallGeom::to_polygon_coords_matrix`)
+pub fn poly_frame_to_local(g: &WallGeom, u: f64, v: f64, z: f64) -> V3 {
+    if g.polygon.len() < 2 {
+        return [u, v, z];
+    }
+    let (p0, p1) = (g.polygon[0], g.polygon[1]);
+    let (dx, dy) = ((p1.x - p0.x) as f64, (p1.y - p0.y) as f64);
+    let len = (dx * dx + dy * dy).sqrt();
+    let (ex, ey) = if len > 0.0 { (dx / len, dy / len) } else { (1.0, 0.0) };
+    [p0.x as f64 + ex * u - ey * v, p0.y as f64 + ey * u + ex * v, z]
+}
+
+/// inverse of `poly_frame_to_local`
+pub fn local_to_poly_frame(g: &WallGeom, l: V3) -> V3 {
+    if g.polygon.len() < 2 {
+        return l;
+    }
+    let (p0, p1) = (g.polygon[0], g.polygon[1]);
+    let (dx, dy) = ((p1.x - p0.x) as f64, (p1.y - p0.y) as f64);
+    let len = (dx * dx + dy * dy).sqrt();
+    let (ex, ey) = if len > 0.0 { (dx / len, dy / len) } else { (1.0, 0.0) };
+    let (qx, qy) = (l[0] - p0.x as f64, l[1] - p0.y as f64);
+    [qx * ex + qy * ey, -qx * ey + qy * ex, l[2]]
+}
+
+/// +1 for an outline listed counter-clockwise, -1 for clockwise (shoelace sum over all edges, in f64)
+pub fn outline_sense(g: &WallGeom) -> f64 {
+    let n = g.polygon.len();
+    let a: f64 = (0..n).map(|i| g.polygon[i].x as f64 * g.polygon[(i + 1) % n].y as f64 - g.polygon[i].y as f64 * g.polygon[(i + 1) % n].x as f64).sum();
+    if a < 0.0 {
+        -1.0
+    } else {
+        1.0
+    }
+}
+
 pub fn reveal_occluders(wall: &Wall, win: &Window) -> Vec<Occ> {
     let (Some(pose), Some(wp)) = (Pose::of(&wall.geometry), win.geometry.position) else { return vec![] };
     let s = win.geometry.setback as f64;
@@ -159,7 +196,7 @@ pub fn reveal_occluders(wall: &Wall, win: &Window) -> Vec<Occ> {
         [[x + w, y, 0.0], [x + w, y + h, 0.0], [x + w, y + h, -s], [x + w, y, -s]],
         [[x, y, 0.0], [x + w, y, 0.0], [x + w, y, -s], [x, y, -s]],
     ];
-    quads.iter().map(|q| occ_from_world_quad(q.map(|l| pose.to_world(l)), win.id)).collect()
+    quads.iter().map(|q| occ_from_world_quad(q.map(|l| pose.to_world(poly_frame_to_local(&wall.geometry, l[0], l[1], l[2]))), win.id)).collect()
 }
 
 /// Build an Occ from 4 coplanar world points: frame = (e1 along p0->p1, e2 in-plane orthogonal, n)
